@@ -92,6 +92,13 @@ def run(c):
             fz.append({"sc": len(fz), "entry": e, "mode": "mutate", "n": n})
     for s in special_inputs():
         fz.append(dict(s, sc=len(fz)))
+    # (4) long series of distinct inputs per decoder, one after the other and from 8 goroutines at once: the process survives (a decoder that keeps
+    #     unsynchronised state dies with a runtime fatal error) and nothing piles up in memory with the number of inputs seen
+    big = ("sigdb", "auth2", "auth2.Unmarshal", "sigdb.Unmarshal", "siglist", "wincert", "wincertguid", "key", "cert")
+    for e in ENTRIES:
+        n = (3000 if c.quick else 30000) if e.split("@")[0] in big else (120000 if c.quick else 600000)
+        fz.append({"sc": len(fz), "entry": e, "mode": "many", "n": n, "par": 1})
+        fz.append({"sc": len(fz), "entry": e, "mode": "many", "n": n, "par": 8})
     res, deaths = c.run_worker("fuzz", fz, env=env, timeout=3000)
     skipped = [ev for s in fz for ev in res.get(s["sc"], []) if ev.get("ev") == "skip"]
     if len(skipped) > len(fz) // 3:
@@ -113,7 +120,7 @@ def run(c):
                      "empty / odd / unterminated UTF-16, odd boot order, foreign PEM block types, malformed GUID text). Sandboxed workers with watchdog; call records judged by TLC "
                      "against spec/Outcome.tla. The static clause (every termination call site) is not decided: the sites found by a source scan are listed as coverage information only.")
     c.sample(fz[0]); c.sample(fz[-1])
-    r = c.tlc("Outcome", "outcome.cfg", files={"calls.ndjson": json.dumps({"entry": "canary", "len": 10, "outcome": "exit", "alloc": 0, "ms": 0}) + "\n"}, name="canary", count=False)
+    r = c.tlc("Outcome", "outcome.cfg", files={"calls.ndjson": json.dumps({"entry": "canary", "len": 10, "outcome": "exit", "alloc": 0, "ms": 0, "read": 0, "retained": 0}) + "\n"}, name="canary", count=False)
     if "CALL_REJECTED" not in r.out:
         raise vf.FrameworkError("canary accepted")
     c.cov["canary_rejected"] = True
